@@ -151,3 +151,12 @@ M('c12_floor_window', 'C12', (J, "        max_steps = ceil(1.0 / (attempt_freq *
 M('c12_max_transit_median', 'C12', (CO, "        max_transit = (events['stop time'] - events['start time']).max()\n", "        max_transit = int((events['stop time'] - events['start time']).median())\n"))
 M('c12_window_ge', 'C12', (CO, "                if event_j['start time'] - event_i['stop time'] > max_steps:\n                    continue\n", "                if event_j['start time'] - event_i['stop time'] >= max_steps:\n                    continue\n"))
 M('c12_dest_only', 'C12', (CO, "                a = sites.frac_coords[[event_i['start site'], event_i['destination site']]]\n", "                a = sites.frac_coords[[event_i['destination site'], event_i['destination site']]]\n"))
+# ---- C19 -------------------------------------------------------------------------------------
+M('c19_bins_both_inclusive', 'C19', (T, "        events[(events[split_key] >= start) & (events[split_key] < stop)].copy()\n", "        events[(events[split_key] >= start) & (events[split_key] <= stop)].copy()\n"))
+M('c19_not_rebased', 'C19', (T, "        part[dependent_keys] -= offset\n", "        pass\n"))
+M('c19_reversed_states', 'C19', (T, "        split_states = np.array_split(self.states, n_parts)\n", "        split_states = np.array_split(self.states, n_parts)[::-1]\n"))
+M('c19_overlapping_traj_parts', 'C19', (TR, "        subtrajectories = [self[start:stop] for start, stop in pairwise(interval)]\n", "        subtrajectories = [self[start:stop + 1] for start, stop in pairwise(interval)]\n"))
+M('c19_bins_drop_last', 'C19', (T, "    bins = np.linspace(0, n_states + 1, n_parts + 1, dtype=int)\n", "    bins = np.linspace(0, n_states - 2, n_parts + 1, dtype=int)\n"))
+M('c19_rebase_wrong_offset', 'C19', (T, "    for offset, part in zip(bins[:-1], parts):\n", "    for offset, part in zip(bins[1:] - bins[1], parts):\n"))
+M('c19_equal_parts_not_trimmed', 'C19', (TR, "            subtrajectories = [trajectory[0:minsize] for trajectory in subtrajectories]\n", "            subtrajectories = [trajectory[0:minsize] for trajectory in subtrajectories[:-1]] + subtrajectories[-1:]\n"))
+M('c19_jumps_split_residence_lost', 'C19', (J, "                minimal_residence=self.minimal_residence,\n            )\n            for part in parts\n", "                minimal_residence=0,\n            )\n            for part in parts[::-1]\n"))
